@@ -40,11 +40,12 @@ func (c18) Batches(tier string, seed uint64) []core.Batch {
 	b = append(b, spread("seq", 12, tierN(tier, 450, 8000))...)
 	b = append(b, spread("big", 4, tierN(tier, 3, 12))...)
 	b = append(b, spread("conc", 4, tierN(tier, 6, 60))...)
+	b = append(b, spread("reuse", 2, tierN(tier, 400, 4000))...)
 	return b
 }
 
 func (c18) Mandatory(tier string) []string {
-	m := []string{"conc:rounds", "conc:overlap>=2", "big:64KiB", "source:version", "source:dependency", "source:deb822", "source:typed", "source:changelog", "source:raw"}
+	m := []string{"reuse:version", "reuse:arch", "reuse:dependency", "reuse:result-aliasing", "conc:rounds", "conc:overlap>=2", "big:64KiB", "source:version", "source:dependency", "source:deb822", "source:typed", "source:changelog", "source:raw"}
 	for _, e := range c18Entries {
 		m = append(m, "entry:"+e.name+":ok")
 		if e.name != "dependency.ParseArch" && e.name != "dependency.ParseArchitectures" { // these accept every string
@@ -449,6 +450,28 @@ func (p c18) RunBatch(t *core.T, b core.Batch) {
 			t.Cover("big:64KiB")
 			t.Case("input", []byte(big), func(c *core.C) { p.one(c, []byte(big)) })
 		}
+	case "reuse":
+		for i := 0; i < b.N; i++ {
+			var a, bb string
+			kind := []string{"version", "arch", "dependency"}[i%3]
+			switch kind {
+			case "version":
+				a, bb = gen.Version(r).Text, gen.Version(r).Text
+			case "arch":
+				a, bb = r.Pick(gen.ArchNames), r.Pick(gen.ArchNames)
+			default:
+				a = gen.Dep(r, 4, 3, true).Render(model.Canonical, false)
+				bb = gen.Dep(r, 3, 2, r.Bool()).Render(model.Canonical, false)
+				if r.Chance(1, 5) {
+					bb = r.Pick([]string{"", " ", "x"})
+				}
+			}
+			if r.Chance(1, 6) {
+				bb = c18Mutate(r, bb)
+			}
+			in := kind + "\x1e" + a + "\x1e" + bb
+			t.Case("reuse", []byte(in), func(c *core.C) { p.reuse(c, kind, a, bb) })
+		}
 	case "conc":
 		for i := 0; i < b.N; i++ {
 			var inputs []string
@@ -471,7 +494,108 @@ func (p c18) RunBatch(t *core.T, b core.Batch) {
 	}
 }
 
+// reuse: decoding text b into a variable that already holds the result of
+// decoding text a must give what decoding b into a fresh variable gives, and
+// must not disturb a copy taken of the first result.
+func (p c18) reuse(c *core.C, kind, a, b string) {
+	c.Cover("reuse:" + kind)
+	c.Nontrivial()
+	switch kind {
+	case "version":
+		for _, via := range []string{"UnmarshalControl", "UnmarshalText", "json"} {
+			dec := func(v *version.Version, s string) error {
+				switch via {
+				case "UnmarshalControl":
+					return v.UnmarshalControl(s)
+				case "UnmarshalText":
+					return v.UnmarshalText([]byte(s))
+				}
+				js, _ := json.Marshal(s)
+				return json.Unmarshal(js, v)
+			}
+			var fresh, reused version.Version
+			errF := dec(&fresh, b)
+			if dec(&reused, a) != nil {
+				continue
+			}
+			errR := dec(&reused, b)
+			if (errF == nil) != (errR == nil) || (errF == nil && fresh != reused) {
+				c.Failf("version via %s: decoding %q into a variable that held %q gives %+v (err %v); into a fresh variable %+v (err %v)", via, b, a, jsonRepr(reused, nil), errR, jsonRepr(fresh, nil), errF)
+			}
+		}
+	case "arch":
+		var fresh, reused dependency.Arch
+		errF := fresh.UnmarshalControl(b)
+		reused.UnmarshalControl(a)
+		errR := reused.UnmarshalControl(b)
+		if (errF == nil) != (errR == nil) || fresh != reused {
+			c.Failf("architecture: decoding %q into a variable that held %q gives %+v; into a fresh variable %+v", b, a, reused, fresh)
+		}
+	default:
+		// results of separate Parse calls must not share mutable state: scribble over
+		// everything reachable from the first result, then parse the same text again
+		if d1, err := dependency.Parse(a); err == nil {
+			pristine := normDep(d1)
+			for ri := range d1.Relations {
+				for pi := range d1.Relations[ri].Possibilities {
+					ps := &d1.Relations[ri].Possibilities[pi]
+					if ps.Arch != nil {
+						*ps.Arch = dependency.Arch{ABI: "scribbled", OS: "scribbled", CPU: "scribbled"}
+					}
+					if ps.Version != nil {
+						*ps.Version = dependency.VersionRelation{Operator: "!!", Number: "scribbled"}
+					}
+					if ps.Architectures != nil {
+						for k := range ps.Architectures.Architectures {
+							ps.Architectures.Architectures[k] = dependency.Arch{ABI: "x", OS: "x", CPU: "x"}
+						}
+						ps.Architectures.Not = !ps.Architectures.Not
+					}
+					for k := range ps.StageSets {
+						for j := range ps.StageSets[k].Stages {
+							ps.StageSets[k].Stages[j] = dependency.Stage{Not: true, Name: "scribbled"}
+						}
+					}
+					ps.Name = "scribbled"
+				}
+			}
+			if d2, err := dependency.Parse(a); err != nil || normDep(d2) != pristine {
+				c.Failf("dependency: after the caller modified the result of Parse(%q) in place, parsing the same text again gives a different value (results share state):\n first:  %s\n second: %s", a, clip(pristine, 300), clip(normDep(d2), 300))
+			}
+			if a1, err := dependency.ParseArch("native"); err == nil {
+				a1.CPU = "scribbled"
+				if a2, _ := dependency.ParseArch("native"); a2 == nil || a2.CPU != "native" {
+					c.Failf("ParseArch results share state across calls")
+				}
+			}
+			c.Cover("reuse:result-aliasing")
+		}
+		var fresh, reused dependency.Dependency
+		errF := fresh.UnmarshalControl(b)
+		if reused.UnmarshalControl(a) != nil {
+			return
+		}
+		copyOfFirst := reused // shares slices with the first result
+		before := normDep(&copyOfFirst)
+		errR := reused.UnmarshalControl(b)
+		if (errF == nil) != (errR == nil) || (errF == nil && normDep(&fresh) != normDep(&reused)) {
+			c.Failf("dependency: decoding %q into a variable that held %q gives %s (err %v); into a fresh variable %s (err %v)", b, a, clip(normDep(&reused), 300), errR, clip(normDep(&fresh), 300), errF)
+		}
+		if after := normDep(&copyOfFirst); after != before {
+			c.Failf("dependency: decoding %q into a variable changed a copy of the value it held before (%q):\n before: %s\n after:  %s", b, a, clip(before, 300), clip(after, 300))
+		}
+	}
+}
+
 func (p c18) RunCase(t *core.T, kind string, input []byte) {
+	switch kind {
+	case "reuse":
+		parts := strings.SplitN(string(input), "\x1e", 3)
+		if len(parts) == 3 {
+			t.Case(kind, input, func(c *core.C) { p.reuse(c, parts[0], parts[1], parts[2]) })
+		}
+		return
+	}
 	switch kind {
 	case "input":
 		t.Case(kind, input, func(c *core.C) { p.one(c, input) })
